@@ -316,6 +316,9 @@ func generate() {
 	// 2c. Reset in the MIDDLE of an input: after k records (also between the records of one
 	// multi-record Unit line, and before any Scan) onto another input
 	midResets()
+	// 2d. many malformed lines in ONE input: every one a positioned NON-FATAL error, every
+	// well-formed line after them still a result
+	manyErrors()
 	// 3. line grammar, plain and exotic
 	n := hx.N(1500, 40000)
 	for i := 0; i < n; i++ {
@@ -558,4 +561,63 @@ func midResets() {
 			}
 		}
 	}
+}
+
+// manyErrors: 101 / 150 / 1000 malformed benchmark lines (go test -v style log lines
+// "BenchmarkLoad: …", missing counts, bad numbers) with real results in between and after;
+// 200+ bad fields on a few Unit lines; and such an input as a NON-LAST file of a Files run.
+func manyErrors() {
+	bad := []string{"BenchmarkLoad: loading fixture %d", "BenchmarkX%d 1", "BenchmarkX%d x 1 ns/op", "BenchmarkX%d 1 1", "BenchmarkX%d 1 z%d ns/op"}
+	mk := func(n int, mixed bool) []byte {
+		var b strings.Builder
+		b.WriteString("goos: linux\nBenchmarkFirst 1 1 ns/op\n")
+		for i := 0; i < n; i++ {
+			f := bad[0]
+			if mixed {
+				f = bad[i%len(bad)]
+			}
+			fmt.Fprintf(&b, strings.ReplaceAll(f, "%d", "%[1]d")+"\n", i)
+			if mixed && i%40 == 39 {
+				fmt.Fprintf(&b, "BenchmarkMid%d 1 %d ns/op\nk%d: v\n", i, i, i%3)
+			}
+		}
+		b.WriteString("BenchmarkLoad-8 5 1500 ns/op 3 MB/s\nafter: 1\nBenchmarkLast 2 2 ns/op\nBenchmarkBad\tagain\n")
+		return []byte(b.String())
+	}
+	sizes := []int{99, 100, 101, 150}
+	if hx.Tier() == "thorough" {
+		sizes = append(sizes, 1000)
+	}
+	for _, n := range sizes {
+		runReader("many", mk(n, false), "manyerrors")
+		runReader("many", mk(n, true), "manyerrors")
+	}
+	// few Unit lines with 200+ malformed / conflicting fields
+	var u strings.Builder
+	u.WriteString("Unit ns/op better=lower\n")
+	for l := 0; l < 3; l++ {
+		u.WriteString("Unit ns/op")
+		for i := 0; i < 80; i++ {
+			switch i % 4 {
+			case 0:
+				u.WriteString(" novalue")
+			case 1:
+				u.WriteString(" =v")
+			case 2:
+				u.WriteString(" better=higher") // conflict
+			default:
+				fmt.Fprintf(&u, " k%d_%d=v", l, i) // new setting
+			}
+		}
+		u.WriteString("\n")
+	}
+	u.WriteString("BenchmarkAfterUnits 1 1 ns/op\n")
+	runReader("units", []byte(u.String()), "manyerrors")
+	// through Files: the input with many errors is NOT the last file
+	two := []byte("k2: v2\nBenchmarkTwo 1 2 ns/op\n")
+	fs := []fsEntry{{"a", mk(150, true)}, {"b", two}, {"c", []byte(u.String())}}
+	runFiles([]string{"a", "b"}, false, false, fs, nil, "manyerrors")
+	runFiles([]string{"c", "a", "b", "a"}, false, false, fs, nil, "manyerrors")
+	// a reused Reader: errors of the first input must not count against the second
+	runReaderReuse("second", mk(101, false), nil, mk(101, true), -1, "manyerrors")
 }
